@@ -31,6 +31,7 @@ class Ctx:
         self.shard = shard
         self.evals = 0
         self.digests = set()
+        self.enumerated_distinct = 0
         self.counters = Counter()
         self.failures = []
         self.known = Counter()
@@ -54,13 +55,20 @@ class Ctx:
         return backends.load(backend, tag)
 
     # -- accounting -----------------------------------------------------
-    def case(self, nontrivial, label=None, key=None, sample=None, n=1):
-        """Count one evaluated case; ``nontrivial`` per the property's RULE."""
+    def case(self, nontrivial, label=None, key=None, sample=None, n=1, enumerated=False):
+        """Count one evaluated case; ``nontrivial`` per the property's RULE.
+        ``enumerated``: the caller enumerates without repetition, so the case is distinct by
+        construction and only counted (no digest is stored; keeps huge enumerations in memory)."""
         self.evals += n
         if label:
             self.counters[label] += 1
         if not nontrivial:
             self.counters["trivial"] += 1
+            return
+        if enumerated:
+            self.enumerated_distinct += 1
+            if self.enumerated_distinct % 9973 == 1 and len(self._first) + len(self._heap) < 6:
+                self._first.append(self._mk_sample(sample))
             return
         k = key if key is not None else self.cur
         d = digest(k)
@@ -254,7 +262,7 @@ class Ctx:
     def result(self, wall):
         self.flush_candidates()
         return {
-            "evals": self.evals, "digests": self.digests, "samples": self.samples(),
+            "evals": self.evals, "digests": self.digests, "enumerated_distinct": self.enumerated_distinct, "samples": self.samples(),
             "counters": dict(self.counters), "failures": self.failures, "known": dict(self.known),
             "known_examples": self.known_examples, "errors": self.errors, "extra": self.extra, "wall": wall,
         }
